@@ -478,4 +478,70 @@ def rule_dead_responders_silenced(ctx):
     c11c(ctx)
 
 
-RULES = [('C01.a', rule_a), ('C01.b', rule_b), ('C01.c', rule_c), ('C01.d', rule_e), ('C01.e', rule_f), ('C01.f', rule_g), ('C06.e', rule_h), ('C06.a', rule_i), ('C01.g', rule_j), ('C01.h', rule_k), ('C01.i+C02.e+C17.c+C05.g+C01.j', rule_l), ('C05.a+C05.f+C03.b+C03.c+C03.f', rule_d), ('C01.m', rule_balancer), ('C01.n', rule_pumps), ('C11.c', rule_dead_responders_silenced)]
+
+def rule_default_subscriber(ctx):
+    """C01.o  DefaultSubscriber - the base of the library's own subscribers and of most application subscribers - hands
+    each signal to the call-back that was given for it: __init__ keeps the four call-backs, each of on_next / on_error /
+    on_complete / on_subscribe calls the call-back kept for its own name exactly once with its own parameters when one
+    was given and does nothing else otherwise, and on_subscribe keeps the subscription on every path."""
+    rep = ctx.report
+    k = ctx.repo.cls('reactivestreams.subscriber:DefaultSubscriber')
+    init = k.methods.get('__init__') if k is not None else None
+    if init is None:
+        raise AnalysisError('C01.o: DefaultSubscriber.__init__ vanished')
+    kept = {}
+    for n in walk_local(init.node):
+        if isinstance(n, (ast.Assign, ast.AnnAssign)):
+            t = n.targets[0] if isinstance(n, ast.Assign) else n.target
+            if isinstance(t, ast.Attribute) and isinstance(t.value, ast.Name) and t.value.id == 'self' and \
+                    isinstance(n.value, ast.Name):
+                kept[n.value.id] = t.attr
+    for name in ('on_next', 'on_error', 'on_complete', 'on_subscribe'):
+        f = k.methods.get(name)
+        attr = kept.get(name)
+        if f is None or attr is None:
+            rep.bad('C01.o', 'DefaultSubscriber.%s / forwards to the call-back given for it' % name, f or init,
+                    '__init__ does not keep the %s call-back' % name if attr is None else 'method missing')
+            continue
+        cb = ('attr', ('self',), attr)
+        params = [('param', f.qualname, p) for p in f.params() if p != 'self']
+        ok, detail = True, ''
+        n_call = n_skip = 0
+        for p in ctx.paths(f, k, inline_depth=0):
+            given = None
+            for e in p.events:
+                if e.kind == 'cond':
+                    kk = strip_epoch(e.data['key'])
+                    if kk[0] == 'isnone' and kk[1] == cb:
+                        given = not bool(e.data['value'])
+                    elif kk[0] == 'truth' and kk[1] == cb:
+                        given = bool(e.data['value'])
+            calls = [e for e in p.events if e.kind == 'call' and strip_epoch(e.data.get('func_term') or ()) == cb or
+                     e.kind == 'call' and e.data.get('name') == attr]
+            others = [e for e in p.events if e.kind == 'call' and e not in calls and
+                      e.data.get('name') in ('_on_next', '_on_error', '_on_complete', '_on_subscribe')]
+            if others:
+                ok, detail = False, 'the signal is handed to %s' % others[0].data.get('name')
+            if given is None:
+                ok, detail = False, 'a path does not ask whether a call-back was given'
+            elif given:
+                n_call += 1
+                if len(calls) != 1 or [strip_epoch(a.term) for a in calls[0].data['args']] != params:
+                    ok, detail = False, 'the call-back is not called once with (%s)' % ', '.join(
+                        x[2] for x in params)
+            else:
+                n_skip += 1
+                if calls:
+                    ok, detail = False, 'a call-back that was not given is called'
+            if name == 'on_subscribe':
+                st = [e for e in p.events if e.kind == 'store' and e.data['target'][0] == 'attr' and
+                      e.data['target'][2] == 'subscription' and strip_epoch(e.data['value'].term) == params[0]]
+                if not st:
+                    ok, detail = False, 'on_subscribe does not keep the subscription on every path'
+        rep.add('C01.o', 'DefaultSubscriber.%s / forwards to the call-back given for it' % name, f,
+                ok and n_call > 0 and n_skip > 0, detail or 'self.%s(%s) iff it is not None' % (
+                    attr, ', '.join(x[2] for x in params)))
+
+
+
+RULES = [('C01.a', rule_a), ('C01.b', rule_b), ('C01.c', rule_c), ('C01.d', rule_e), ('C01.e', rule_f), ('C01.f', rule_g), ('C06.e', rule_h), ('C06.a', rule_i), ('C01.g', rule_j), ('C01.h', rule_k), ('C01.i+C02.e+C17.c+C05.g+C01.j', rule_l), ('C05.a+C05.f+C03.b+C03.c+C03.f', rule_d), ('C01.m', rule_balancer), ('C01.n', rule_pumps), ('C11.c', rule_dead_responders_silenced), ('C01.o', rule_default_subscriber)]
